@@ -76,6 +76,14 @@ type world struct {
 	rdArr     *gate.Arrival
 	rdRes     *readRes
 	passReads atomic.Bool // reads issued by the checker itself are not scheduled
+	raced     [2]bool     // a flush / compaction swap was let go inside the last DB.Checkpoint call
+	overlapHint bool      // the current CompactPick step asks for a flush to build its table during the compaction's
+	overlaps    int
+	// where the scheduled read of the behaviour is held (Dkv.tla GetHolds / ScanHolds); "between" is the default
+	passBetween atomic.Bool  // this read passes the between-captures gate (it is held somewhere else)
+	snapGid     atomic.Int64 // goroutine of a Get that is to be held inside memtable.List.Get (once)
+	held        chan struct{} // a scan signals that it reached its hold ("returned" / "mid")
+	cont        chan struct{} // closed to let a held scan continue
 	ckWait    map[int]func() (recovery.CheckpointHandle, error)
 	ckArr     map[int]*gate.Arrival
 	handles   map[int]recovery.CheckpointHandle
@@ -83,6 +91,7 @@ type world struct {
 	dropped   map[int]bool // checkpoints the caller gave up
 	known     map[int]bool // checkpoints in this database instance's list
 	fsViol    []string
+	sstBy     map[string]string // table file -> view (database instance) that wrote it
 	skipped   int
 }
 
@@ -151,7 +160,14 @@ func (w *world) opts(v *fsx.View) dkv.DBOptions {
 
 // hook handler: arrivals of databases the replay does not schedule pass through
 func (w *world) hook(point string, args ...any) {
-	if w.passReads.Load() && (point == "dkv.get.between" || point == "dkv.scan.between") {
+	if point == "dkv.memlist.get" {
+		// only the scheduled Get, once, after it took its snapshot of the memtable list
+		if g := w.snapGid.Load(); g != 0 && g == gate.Goid() && w.snapGid.CompareAndSwap(g, 0) {
+			w.s.At(point, args...)
+		}
+		return
+	}
+	if (w.passReads.Load() || w.passBetween.Load()) && (point == "dkv.get.between" || point == "dkv.scan.between") {
 		return
 	}
 	if len(args) > 0 {
@@ -176,7 +192,7 @@ func newWorld(in *mbt.Input) *world {
 		ckWait: map[int]func() (recovery.CheckpointHandle, error){}, ckArr: map[int]*gate.Arrival{},
 		handles: map[int]recovery.CheckpointHandle{}, snap: map[int]map[int]int{}, known: map[int]bool{}, dropped: map[int]bool{}}
 	w.s = gate.New("dkv.flush.start", "dkv.flush.swap", "dkv.compact.pick", "dkv.compact.swap",
-		"dkv.get.between", "dkv.scan.between", "dkv.ckpt.saveWal", "dkv.ckpt.saveDoc")
+		"dkv.get.between", "dkv.scan.between", "dkv.ckpt.saveWal", "dkv.ckpt.saveDoc", "dkv.memlist.get")
 	verifhook.Install(w.hook, func(name string, def int64) int64 {
 		if v, ok := in.Config["tune."+name].(float64); ok {
 			return int64(v)
@@ -281,10 +297,38 @@ func (w *world) bg(action string) error {
 			w.skipped++
 			return nil
 		}
+		overlap := w.overlapHint && w.flushState == "start"
+		var once sync.Once
+		var ovArr *gate.Arrival
+		var ovErr error
+		if overlap {
+			compGid, flushArr := w.compArr.Gid, w.flushArr
+			w.view.Probe = func(op, path string) {
+				if op != "new" || !strings.HasSuffix(path, ".sst") || gate.Goid() != compGid {
+					return
+				}
+				once.Do(func() { // the compaction is creating its first output file: the waiting flush builds its table now
+					flushArr.Release()
+					ovArr, ovErr = w.s.Await(isMain(w, "dkv.flush.swap"), wait)
+				})
+			}
+		}
 		w.compArr.Release()
 		a, err := w.s.Await(func(a *gate.Arrival) bool {
 			return isMain(w, "dkv.compact.swap")(a) || isMain(w, "dkv.compact.done")(a)
 		}, wait)
+		if overlap {
+			w.view.Probe = nil
+			fired := true
+			once.Do(func() { fired = false }) // the compaction created no table
+			if fired {
+				if ovErr != nil {
+					return ovErr
+				}
+				w.flushArr, w.flushState = ovArr, "swap"
+				w.overlaps++
+			}
+		}
 		if err != nil {
 			return err
 		}
@@ -312,6 +356,78 @@ func (w *world) bg(action string) error {
 	return nil
 }
 
+// raceCheckpoint calls DB.Checkpoint and, at the first storage call made inside it by the calling goroutine, lets the
+// flush / compaction that is parked before its swap go. If Checkpoint is one critical section the swap has to wait for
+// it; if it is not, the swap lands in the middle. Either way the contents the checkpoint must restore to are those at
+// the call. Afterwards the swap is awaited and accounted for like a FlushSwap / CompactSwap step (the model's own step
+// for it is then skipped).
+func (w *world) raceCheckpoint(id int) {
+	me := gate.Goid()
+	fl, cp := w.flushState == "swap", w.compState == "swap"
+	var once sync.Once
+	w.view.Probe = func(op, path string) {
+		if gate.Goid() != me {
+			return
+		}
+		once.Do(func() {
+			if fl {
+				w.flushArr.Release()
+			}
+			if cp {
+				w.compArr.Release()
+			}
+			// long enough for an unserialised swap to land, short enough to cost nothing when it has to wait
+			dl := time.Now().Add(20 * time.Millisecond)
+			for time.Now().Before(dl) {
+				if (!fl || w.s.Has(isMain(w, "dkv.flush.swapped"))) && (!cp || w.s.Has(isMain(w, "dkv.compact.swapped"))) {
+					break // landed inside the call
+				}
+				time.Sleep(200 * time.Microsecond)
+			}
+		})
+	}
+	w.ckWait[id] = w.db.Checkpoint(uint64(id))
+	w.view.Probe = nil
+	once.Do(func() { // no storage call inside Checkpoint: release now
+		if fl {
+			w.flushArr.Release()
+		}
+		if cp {
+			w.compArr.Release()
+		}
+	})
+	w.raced = [2]bool{fl, cp}
+}
+
+// afterRace completes the bookkeeping of the swaps let go by raceCheckpoint.
+func (w *world) afterRace() error {
+	fl, cp := w.raced[0], w.raced[1]
+	w.raced = [2]bool{}
+	if fl {
+		if _, err := w.s.Await(isMain(w, "dkv.flush.swapped"), wait); err != nil {
+			return err
+		}
+		w.flushState, w.flushArr = "", nil
+		w.pendingFlush--
+		w.pendingComp++
+		w.memCount = w.memTables()
+	}
+	if cp {
+		if _, err := w.s.Await(isMain(w, "dkv.compact.swapped"), wait); err != nil {
+			return err
+		}
+		a, err := w.s.Await(isMain(w, "dkv.compact.pick"), wait)
+		if err != nil {
+			return err
+		}
+		w.compArr, w.compState = a, "pick"
+	}
+	if fl || cp {
+		return w.sync()
+	}
+	return nil
+}
+
 // read helpers ---------------------------------------------------------------
 
 // awaitRead waits until the read goroutine is parked between its two captures
@@ -326,9 +442,21 @@ func (w *world) awaitRead(point string) error {
 			return nil
 		default:
 		}
-		if a, err := w.s.Await(isMain(w, point), 0); err == nil {
-			w.rdArr = a
-			return nil
+		if w.held != nil {
+			select {
+			case <-w.held:
+				return nil
+			default:
+			}
+		} else {
+			match := isMain(w, point)
+			if point == "dkv.memlist.get" {
+				match = gate.Point(point)
+			}
+			if a, err := w.s.Await(match, 0); err == nil {
+				w.rdArr = a
+				return nil
+			}
 		}
 		time.Sleep(50 * time.Microsecond)
 	}
@@ -336,10 +464,15 @@ func (w *world) awaitRead(point string) error {
 }
 
 func (w *world) finishRead() readRes {
+	defer func() { w.passBetween.Store(false); w.snapGid.Store(0); w.held, w.cont = nil, nil }()
 	if w.rdRes != nil {
 		return *w.rdRes
 	}
-	w.rdArr.Release()
+	if w.cont != nil {
+		close(w.cont)
+	} else {
+		w.rdArr.Release()
+	}
 	return <-w.rdCh
 }
 
@@ -368,25 +501,52 @@ func (w *world) getAll(db *dkv.DB, keys []int) (res readRes) {
 }
 
 func (w *world) scan(db *dkv.DB, prefix []byte) (res readRes) {
+	return w.scanHeld(db, prefix, "", nil, nil)
+}
+
+// scanHeld: at = "returned" pauses after DB.ScanPrefix returned its iterator, "mid" after the first pulled entry
+// (or at the end of an empty scan); the pause is signalled on held and ends when cont is closed
+func (w *world) scanHeld(db *dkv.DB, prefix []byte, at string, held, cont chan struct{}) (res readRes) {
+	paused := false
+	pause := func() {
+		if !paused && held != nil {
+			paused = true
+			held <- struct{}{}
+			<-cont
+		}
+	}
 	defer func() {
 		if p := recover(); p != nil {
 			res.pan = p
+			if !paused && held != nil {
+				paused = true
+				held <- struct{}{} // never leave the replayer waiting for a hold that cannot come
+			}
 		}
 	}()
 	res.vals = map[int]int{}
 	var serr error
-	for e := range db.ScanPrefix(prefix, &serr) {
+	it := db.ScanPrefix(prefix, &serr)
+	if at == "returned" {
+		pause()
+	}
+	for e := range it {
 		res.order = append(res.order, string(e.Key()))
-		if e.IsDelete() {
-			res.vals[w.keyID(e.Key())] = -2 // a tombstone must not be yielded
-			continue
-		}
 		id := w.keyID(e.Key())
-		if _, dup := res.vals[id]; dup {
+		switch _, dup := res.vals[id]; {
+		case e.IsDelete():
+			res.vals[id] = -2 // a tombstone must not be yielded
+		case dup:
 			res.vals[id] = -3 // yielded twice
-			continue
+		default:
+			res.vals[id] = w.valID(e.Value())
 		}
-		res.vals[id] = w.valID(e.Value())
+		if at == "mid" {
+			pause() // after the first pulled entry
+		}
+	}
+	if at == "mid" {
+		pause() // nothing was yielded
 	}
 	res.err = serr
 	return
@@ -607,6 +767,24 @@ func (w *world) checkHandles(res *mbt.Result, bi, si int) *mbt.Violation {
 // changing overwrite of a file that the saved checkpoint document (restricted
 // to checkpoints whose handle has been returned) references is a violation.
 func (w *world) onFsEvent(e fsx.Event, s *fsx.Store) {
+	// table files are written once: a database instance that writes the same table file twice has two tables (the
+	// first one possibly live or part of a checkpoint being saved) sharing one file, and the first lost its content
+	if strings.HasSuffix(e.Path, ".sst") {
+		if w.sstBy == nil {
+			w.sstBy = map[string]string{}
+		}
+		switch e.Op {
+		case "create":
+			w.sstBy[e.Path] = e.View
+		case "overwrite":
+			if w.sstBy[e.Path] == e.View {
+				w.fsViol = append(w.fsViol, fmt.Sprintf("table file %s is written a second time by the same database instance (%s): the table that was written first lost its file", e.Path, e.View))
+			}
+			w.sstBy[e.Path] = e.View
+		case "delete":
+			delete(w.sstBy, e.Path)
+		}
+	}
 	if e.Op != "delete" && e.Op != "overwrite" {
 		return
 	}
@@ -681,6 +859,7 @@ func replay(bi int, beh []mbt.Step, in *mbt.Input, res *mbt.Result) {
 				return
 			}
 		case "FlushStart", "FlushSwap", "CompactPick", "CompactSwap":
+			w.overlapHint = a == "CompactPick" && st.Bool("overlap")
 			if err := w.bg(a); err != nil {
 				machinery(si, err)
 				return
@@ -689,11 +868,22 @@ func replay(bi int, beh []mbt.Step, in *mbt.Input, res *mbt.Result) {
 			k := st.Int("k")
 			w.rdCh = make(chan readRes, 1)
 			db := w.db
-			go func() { w.rdCh <- w.getAll(db, []int{k}) }()
-			if err := w.awaitRead("dkv.get.between"); err != nil {
+			point := "dkv.get.between"
+			if st.Str("at") == "snap" {
+				point = "dkv.memlist.get"
+				w.passBetween.Store(true)
+			}
+			go func() {
+				if point == "dkv.memlist.get" {
+					w.snapGid.Store(gate.Goid())
+				}
+				w.rdCh <- w.getAll(db, []int{k})
+			}()
+			if err := w.awaitRead(point); err != nil {
 				machinery(si, err)
 				return
 			}
+			res.Count("get_hold_"+point, 1)
 		case "GetEnd":
 			r := w.finishRead()
 			k := st.Int("k")
@@ -717,7 +907,16 @@ func replay(bi int, beh []mbt.Step, in *mbt.Input, res *mbt.Result) {
 			}
 			w.rdCh = make(chan readRes, 1)
 			db := w.db
-			go func() { w.rdCh <- w.scan(db, prefix) }()
+			if at := st.Str("at"); at == "returned" || at == "mid" {
+				w.passBetween.Store(true)
+				w.held, w.cont = make(chan struct{}, 1), make(chan struct{})
+				held, cont := w.held, w.cont
+				go func() { w.rdCh <- w.scanHeld(db, prefix, at, held, cont) }()
+				res.Count("scan_hold_"+at, 1)
+			} else {
+				go func() { w.rdCh <- w.scan(db, prefix) }()
+				res.Count("scan_hold_between", 1)
+			}
 			if err := w.awaitRead("dkv.scan.between"); err != nil {
 				machinery(si, err)
 				return
@@ -745,7 +944,12 @@ func replay(bi int, beh []mbt.Step, in *mbt.Input, res *mbt.Result) {
 			id := st.Int("id")
 			w.snap[id] = demandedMap(st, "snap")
 			w.known[id] = true
-			w.ckWait[id] = w.db.Checkpoint(uint64(id))
+			if st.Bool("race") && (w.flushState == "swap" || w.compState == "swap") {
+				w.raceCheckpoint(id)
+				res.Count("checkpoints_raced_with_a_swap", 1)
+			} else {
+				w.ckWait[id] = w.db.Checkpoint(uint64(id))
+			}
 			// the save task parks before saving the WAL (or, should the code skip that, before saving the document)
 			arr, err := w.s.Await(func(a *gate.Arrival) bool {
 				return (isMain(w, "dkv.ckpt.saveWal")(a) || isMain(w, "dkv.ckpt.saveDoc")(a)) && a.Args[1] == any(uint64(id))
@@ -755,6 +959,10 @@ func replay(bi int, beh []mbt.Step, in *mbt.Input, res *mbt.Result) {
 				return
 			}
 			w.ckArr[id] = arr
+			if err := w.afterRace(); err != nil {
+				machinery(si, err)
+				return
+			}
 		case "SaveWal":
 			id := st.Int("id")
 			if w.ckArr[id].Point == "dkv.ckpt.saveDoc" {
@@ -995,6 +1203,7 @@ func replay(bi int, beh []mbt.Step, in *mbt.Input, res *mbt.Result) {
 		return
 	}
 	res.Count("skipped_bg_steps", w.skipped)
+	res.Count("flush_builds_during_compaction_builds", w.overlaps)
 	res.Executed++
 }
 
